@@ -12,6 +12,7 @@ import Driver.Formats
 import Driver.Blowfish
 import Driver.Scrypt
 import Driver.ShaCrypt
+import Driver.Backend
 /-
 Line protocol driver: `<suite> <op> <args…>` per input line, one result line out.
 Compiled (`lean_exe modeldrv`); nothing imported here touches Mathlib.
@@ -32,6 +33,7 @@ def dispatch (line : String) : String :=
   | "bf" :: rest => Driver.Blowfish.handle rest
   | "scrypt" :: rest => Driver.Scrypt.handle rest
   | "shac" :: rest => Driver.ShaCrypt.handle rest
+  | "backend" :: rest => Driver.Backend.handle rest
   | _ => Driver.bad
 
 partial def loop (h : IO.FS.Stream) (out : IO.FS.Stream) : IO Unit := do
